@@ -152,11 +152,11 @@ theorem gen_get_rows_per_block (pt cols mbs : Nat) (hc : 0 < cols) :
 /-- `write_data`: test and body of the block loop -/
 theorem gen_wd_cond (r0 r1 c0 c1 rpb b : Int) (tr : List Tr6) :
     Gen.L.write_data_loop1_cond r0 r1 c0 c1 rpb b tr = .ok (wdCond r1 (b, tr)) := by
-  simp [Gen.L.write_data_loop1_cond, wdCond, pure, Except.pure]
+  simp [Gen.L.write_data_loop1_cond, wdCond, pure, Except.pure] <;> omega
 
 theorem gen_wd_body (r0 r1 c0 c1 rpb b : Int) (tr : List Tr6) :
     Gen.L.write_data_loop1_body r0 r1 c0 c1 rpb b tr = .ok (wdStep r0 r1 c0 c1 rpb (b, tr)) := by
-  simp [Gen.L.write_data_loop1_body, wdStep, pure, Except.pure]
+  simp [Gen.L.write_data_loop1_body, wdStep, pure, Except.pure] <;> omega
 
 theorem wd_iter (r0 r1 : Nat) (c0 c1 : Int) (rpb : Nat) (fuel off : Nat) (acc : List Tr6) :
     (iterWhile (wdCond r1) (wdStep r0 r1 c0 c1 rpb) fuel ((off : Int), acc)).2 =
